@@ -27,6 +27,15 @@ import Driver.Freelist
 import Driver.Sieve
 import Driver.Undo
 import Driver.Mvcc
+import Driver.Commit
+import Driver.Catalog
+import Driver.SqlIdx
+import Driver.Dec
+import Driver.Lex
+import Driver.Toast
+import Driver.Wal
+import Driver.Leaf
+import Driver.Robust
 
 def main (args : List String) : IO UInt32 := do
   let stdin ← IO.getStdin
@@ -51,6 +60,12 @@ def main (args : List String) : IO UInt32 := do
   | ["cal"] => Driver.loop stdin stdout () Driver.Cal.step; return 0
   | ["hnsw"] => Driver.loop stdin stdout ({} : TurVerif.Hnsw.Index) Driver.Hnsw.step; return 0
   | ["dist"] => Driver.loop stdin stdout () Driver.Dist.step; return 0
+  | ["sqlidx"] => Driver.loop stdin stdout ({} : TurVerif.SqlIdx.St) Driver.SqlIdx.step; return 0
+  | ["lex"] => Driver.loop stdin stdout () Driver.Lex.step; return 0
+  | ["toast"] => Driver.loop stdin stdout () Driver.Toast.step; return 0
+  | ["wal"] => Driver.loop stdin stdout ({} : Driver.Wal.St) Driver.Wal.step; return 0
+  | ["leaf"] => Driver.loop stdin stdout ([] : Driver.Leaf.St) Driver.Leaf.step; return 0
+  | ["robust"] => Driver.loop stdin stdout () Driver.Robust.step; return 0
   | ["json"] => Driver.loop stdin stdout () Driver.Json.step; return 0
   | ["rowserde"] => Driver.loop stdin stdout () Driver.RowSerde.step; return 0
   | ["subspill"] => Driver.loop stdin stdout () Driver.SubSpill.step; return 0
@@ -61,4 +76,7 @@ def main (args : List String) : IO UInt32 := do
   | ["sieve"] => Driver.loop stdin stdout (none : Option TurVerif.Sieve.Cache) Driver.Sieve.step; return 0
   | ["mvcc"] => Driver.loop stdin stdout ({} : Driver.Mvcc.S) Driver.Mvcc.step; return 0
   | ["undo"] => Driver.loop stdin stdout ({} : TurVerif.Undo.Eng) Driver.Undo.step; return 0
+  | ["commit"] => Driver.loop stdin stdout ({} : Driver.Commit.St) Driver.Commit.step; return 0
+  | ["catalog"] => Driver.loop stdin stdout () Driver.Catalog.step; return 0
+  | ["dec"] => Driver.Dec.run stdin stdout ({} : Driver.Dec.St); return 0
   | _ => IO.eprintln "usage: tvmodel <family>"; return 2
